@@ -246,4 +246,76 @@ theorem steps_top (ok : P.Ok) (hall : X.nmAll = true) : ∀ (es : List Event) (f
       intro _ u₁ _ u₂ ⟨hu, est, hm, hf⟩
       exact ih false depth u₁ u₂ hrest hid2.2 hu ⟨fun _ => hm, by rw [est]; exact inv.dp, hf.sb inv.sb, hf.rv inv.rv⟩ hnl3
 
+/-! ### the outer scope after the block, open mode: nothing is tainted -/
+
+/-- the event names no forbidden row id (by an edge or as a `go_to` destination) -/
+def Event.avoidsF (F : List Str) : Event → Bool
+  | .row r => edgesOk F false r.edges && r.dests.all (fun d => !F.contains d)
+  | .openGroup edges starting => starting || edgesOk F false edges
+  | .closeGroup _ => true
+  | .insert r _ => edgesOk F false r.edges
+
+def avoidsOpen (F : List Str) (es : List Event) : Bool := es.all (Event.avoidsF F)
+
+theorem steps_open (ok : P.Ok) (hall : X.nmAll = true) (hT : ∀ j, ¬ P.T j) : ∀ (es : List Event) (s₁ s₂ : St),
+    avoidsOpen X.F es = true → okIdsL es = true → Sim P X s₁ s₂ → SB s₁ → RV s₁ →
+    (P.op = true → noLooseL es = true) →
+    rwp (steps es) (steps es) s₁ s₂ (fun _ t₁ _ t₂ => Sim P X t₁ t₂) := by
+  have hmr : ∀ s : St, MR P s := fun s x _ => hT x
+  intro es
+  induction es with
+  | nil =>
+    intro s₁ s₂ _ _ h _ _ _
+    unfold steps
+    rw [rwp_pure]; exact h
+  | cons e es ih =>
+    intro s₁ s₂ hav hid h hsb hrv hnl
+    have hnl2 : P.op = true → e.noLoose = true ∧ noLooseL es = true := fun hop => noLooseL_cons (hnl hop)
+    have hnl3 : P.op = true → noLooseL es = true := fun hop => (hnl2 hop).2
+    have hid2 : e.okIds = true ∧ okIdsL es = true := by simpa [okIdsL] using hid
+    have hav2 : e.avoidsF X.F = true ∧ avoidsOpen X.F es = true := by
+      simpa [avoidsOpen] using hav
+    unfold steps
+    rw [rwp_bind]
+    cases e with
+    | row r =>
+      have hav3 : edgesOk X.F false r.edges = true ∧ (r.dests.all (fun d => !X.F.contains d)) = true := by
+        simpa [Event.avoidsF] using hav2.1
+      unfold step
+      have hid' : ¬ Invented r.nodeUuid := by simpa [Event.okIds] using hid2.1
+      have hpre : RowPre P X s₁ r := by
+        refine ⟨edgesPre_of_ok hav3.1 (fun _ => hmr s₁), ?_, ok.hfix _ hid', hrv, .inl hall,
+          fun hop => noLoose_row (hnl2 hop).1⟩
+        intro d hdm
+        have hd := hav3.2
+        rw [List.all_eq_true] at hd
+        have := hd d hdm
+        simpa using this
+      refine rwp_mono (parseRow_rel ok h r hpre) ?_
+      intro _ u₁ _ u₂ ⟨hu, est, hf, hap⟩
+      exact ih u₁ u₂ hav2.2 hid2.2 hu (hf.sb hsb) (hf.rv hrv) hnl3
+    | openGroup edges starting =>
+      have hav3 : starting = true ∨ edgesOk X.F false edges = true := by
+        simpa [Event.avoidsF] using hav2.1
+      unfold step
+      refine rwp_mono (openGroup_rel ok h edges starting ?_ hrv) ?_
+      · intro hs
+        rcases hav3 with he | he
+        · rw [hs] at he; cases he
+        · exact edgesPre_of_ok he (fun _ => hmr s₁)
+      · intro _ u₁ _ u₂ ⟨hu, est, hnt, hf, hm⟩
+        exact ih u₁ u₂ hav2.2 hid2.2 hu (hf.sb hsb) (hf.rv hrv) hnl3
+    | closeGroup rowId =>
+      unfold step
+      refine rwp_mono (closeGroup_rel ok h rowId (fun b c rest _ htb => absurd htb (hT b)) (fun b hb => hsb.lt hb)) ?_
+      intro _ u₁ _ u₂ ⟨hu, est, hsb', hrv', _, _, _⟩
+      exact ih u₁ u₂ hav2.2 hid2.2 hu (hsb' hsb) (hrv' hrv) hnl3
+    | insert r body =>
+      have he : edgesOk X.F false r.edges = true := by simpa [Event.avoidsF] using hav2.1
+      have hb : BodyRel body := bodyRel_of_okIds body (by simpa [Event.okIds] using hid2.1)
+      refine rwp_mono (insert_rel ok h r body hb (edgesPre_of_ok he (fun _ => hmr s₁)) hsb
+        (fun hop => noLoose_insert (hnl2 hop).1)) ?_
+      intro _ u₁ _ u₂ ⟨hu, est, hm, hf⟩
+      exact ih u₁ u₂ hav2.2 hid2.2 hu (hf.sb hsb) (hf.rv hrv) hnl3
+
 end Rpft.Compile
